@@ -518,7 +518,7 @@ def shard(task):
 
 
 def run(ctx):
-    n = ctx.pick(200, 6000)
+    n = ctx.pick(800, 6000)
     ctx.pmap(shard, [(ctx.shard_seed(i), n) for i in range(16)])
 
 
